@@ -80,6 +80,7 @@ type pair struct {
 	hs   []*big.Int // probe hashes, ascending, de-duplicated
 	js   []int64    // result of choose per probe (-1: not evaluated / panicked)
 	base int        // index of the first probe in the flattened list
+	tc   []int64    // upper-tail cells probed (tail.go)
 }
 
 // QInput is the replayable input of a quantile violation.
@@ -162,14 +163,19 @@ func buildPair(w int64, ps pspec, quick bool) *pair {
 	if ps.P > 1 {
 		// no distribution exists; the implementation must still return a seat
 		// count in [0,w] (checked) — probe the extremes and a spread of hashes
-		pr.hs = extremeHashes()
+		pr.hs = append(extremeHashes(), upperExtremeHashes()...)
 		for _, f := range []float64{0.001, 0.25, 0.5, 0.75, 0.985, 0.995, 0.999999} {
 			pr.hs = append(pr.hs, hashOf(bf().SetFloat64(f)))
 		}
 	} else {
 		pr.d = newDist(w, bf().SetFloat64(ps.P))
 		lowB, highB := bf().SetFloat64(1e-12), bf().Sub(fOne, bf().SetFloat64(1e-12))
-		pr.hs = extremeHashes()
+		pr.hs = append(extremeHashes(), upperExtremeHashes()...)
+		if tailOracleApplies(pr, "mirrored") {
+			// upper tail: every tail cell boundary, in tail space (tail.go)
+			pr.tc = tailCells(pr.d)
+			pr.hs = append(pr.hs, tailProbeHashes(pr.d, pr.tc)...)
+		}
 		for j := pr.d.lo; j <= pr.d.hi(); j++ {
 			F := pr.d.cdf(j)
 			if w > 64 && (F.Cmp(lowB) < 0 || F.Cmp(highB) > 0) {
@@ -315,6 +321,10 @@ func evalQuantile(r *mc.Run, pr *pair, h *big.Int) (j int64, ok bool) {
 				in.Hash, pr.W, pr.PS.P, pr.PS.Name, j, jex, epsFloat(pr.W), jlo, jhi, t.Text('g', 30), jex-1, pr.d.cdf(jex-1).Text('g', 30), jex, pr.d.cdf(jex).Text('g', 30)),
 			Input: in})
 	}
+	if tailOracleApplies(pr, br) {
+		// regime target > 0.99: exact tails, relative tolerance (tail.go)
+		evalTail(r, pr, h, j, br, in)
+	}
 	return j, true
 }
 
@@ -331,17 +341,21 @@ func runQuantile(r *mc.Run) {
 	quick := r.Quick()
 	r.ForEach(len(pairs), func(_, i int) {
 		b := buildPair(pairs[i].W, pairs[i].PS, quick)
+		if len(b.tc) > 0 {
+			measureFloatTail(r, b, b.tc)
+		}
 		mu.Lock()
 		pairs[i] = b
 		mu.Unlock()
 	})
 	type probe struct{ pi, hi int }
 	var probes []probe
-	cells := 0
+	cells, tcells := 0, 0
 	for i, pr := range pairs {
 		if pr.hs == nil { // deadline hit while building
 			continue
 		}
+		tcells += len(pr.tc)
 		for k := range pr.hs {
 			probes = append(probes, probe{i, k})
 		}
@@ -377,6 +391,7 @@ func runQuantile(r *mc.Run) {
 	}
 	devMu.Unlock()
 	r.SetExtra("largest_seat_count_error_outside_tolerance", so)
+	tailExtras(r, tcells)
 	// monotone in the hash
 	for _, pr := range pairs {
 		prev := -1
